@@ -371,6 +371,9 @@ func (circFamily) Exec(c *hc.Case) {
 	if c.ID%8 == 2 {
 		zeroDeadlineProbe(c, tags)
 	}
+	if c.ID%8 == 3 {
+		nilPanicProbe(c, tags)
+	}
 	for t := range tags {
 		c.Tags = append(c.Tags, t)
 	}
